@@ -283,7 +283,12 @@ def run_case(R, level, values, forms, rid=None, err_index=0, label="gen", max_si
     if res[0] != "ok":
         R.violation(case, "well-formed response refused with %r" % (res[1],), None)
         return
-    got = [to_tuple(v) for v in res[1]]
+    try:
+        # values are decoded lazily: reading them is part of "reaches the caller"
+        got = [to_tuple(v) for v in res[1]]
+    except Exception as exc:  # noqa: BLE001 - whatever the tree under test raises
+        R.violation(case, "a value of a well-formed response was delivered but cannot be read: %r" % (exc,), None)
+        return
     want = [v for _, v in wire]
     if got != want:
         bad = [i for i, (g, x) in enumerate(zip(got, want)) if g != x]
